@@ -515,6 +515,7 @@ type gochan struct {
 	closed bool
 	elemT  types.Type
 	mayFire bool
+	recvWaiting int
 }
 
 // ---------------------------------------------------------------------
